@@ -210,6 +210,42 @@ def gen_case(rng, big):
     return graph, presets, targets, nd
 
 
+def gen_late(rng):
+    """aimed at the window 'activation concurrent with release': vertex A is activated late (by the thread that seals
+    condition C of X's dependency on A) while A's own target T is being sealed by another worker"""
+    presets = [(0, rng.choice([0, 1, "E"])), (1, rng.below(900))]
+    chain = rng.below(3)
+    graph = [("", [(1, None, False, False)], [2])]
+    last = 2
+    nd = 3
+    for _ in range(chain):
+        graph.append(("", [(last, None, False, False)], [nd]))
+        last = nd
+        nd += 1
+    t = last
+    graph.append(("b", [(0, None, False, False)] if rng.chance(1, 2) else [], [nd]))
+    c = nd
+    nd += 1
+    adeps = [(t, None, False, False)]
+    if rng.chance(1, 2):
+        adeps.append((t, c, rng.chance(1, 2), False))
+    if rng.chance(1, 3):
+        adeps.append((1, None, False, rng.chance(1, 2)))
+    graph.append(("", adeps, [nd]))
+    a = nd
+    nd += 1
+    env, _ = ref_eval(graph, dict(presets))
+    ev = truthy(env.get(c, "E")) if rng.chance(3, 4) else not truthy(env.get(c, "E"))
+    graph.append(("", [(a, c, ev, rng.chance(1, 4))], [nd]))
+    x = nd
+    nd += 1
+    graph.append(("", [(t, None, False, False)], [nd]))
+    y = nd
+    nd += 1
+    targets = [x, y] if rng.chance(1, 2) else [y, x]
+    return graph, presets, targets, nd
+
+
 def gen_injects(rng, graph, presets, targets, nd):
     """externally injected data: producer-less data emitted by extra threads (sealed before run() starts, the
     successor notification of release() still running concurrently with the activation).  Returns (presets', threads)."""
@@ -309,22 +345,34 @@ def check_cycle(chk, rep, cyc, graph, presets, inj_threads, targets, s):
 def main(argv):
     chk = Check("C05", argv)
     thorough = chk.tier == "thorough"
+    chk.translate(["anyflow"])
+    chk.log("translated")
+    chk.coq("Properties_C05.v")
+    chk.log("coq done")
+    model = chk.extract("af", "Extract_af.v", "af_driver.ml", explorer=True)
+    chk.log("model extracted")
+    lib = chk.repolib_all()
     impl = chk.build_cpp("c05_anyflow", [os.path.join(VERIF, "harness/conc/c05_anyflow.cpp"),
                                          os.path.join(VERIF, "harness/shim/dsched.cpp")],
-                         objs=[chk.repolib_all()], ldflags=["-ldl"])
+                         objs=[lib], flags=["-fno-access-control"], ldflags=["-ldl"]) if lib else None
+    chk.log("harness built")
     rng = chk.rng
     cases = []
+    replay_unit = None
     if chk.replay:
         r = json.load(open(chk.replay))["replay"]
-        cases = [("r0", r["seed"], r["strategy"], r["exec"], r["cycles"], [tuple([f, [tuple(d) for d in ds], es]) for f, ds, es in r["graph"]],
-                  [tuple(p) for p in r["presets"]], [[tuple(x) for x in th] for th in r["injects"]], r["targets"])]
+        if r.get("unit"):
+            replay_unit = r
+        else:
+            cases = [("r0", r["seed"], r["strategy"], r["exec"], r["cycles"], [tuple([f, [tuple(d) for d in ds], es]) for f, ds, es in r["graph"]],
+                     [tuple(p) for p in r["presets"]], [[tuple(x) for x in th] for th in r["injects"]], r["targets"])]
     else:
-        ngraph, nsched = (90, 6) if not thorough else (500, 14)
+        ngraph, nsched = (300, 6) if not thorough else (1500, 14)
         for gi in range(ngraph):
-            graph, presets, targets, nd = gen_case(rng, big=gi % 3 == 0)
+            graph, presets, targets, nd = gen_late(rng) if gi % 4 == 3 else gen_case(rng, big=gi % 3 == 0)
             for si in range(nsched):
                 pres, inj = gen_injects(rng, graph, presets, targets, nd) if si % 2 == 1 else (presets, [])
-                ex = ["I", "P1", "P2", "P3", "P2", "I"][si % 6]
+                ex = ["I", "P1", "P2", "P3", "P2", "I"][si % 6] if gi % 4 != 3 else ["P2", "P3", "P1", "P2", "P3", "I"][si % 6]
                 strat = [0, 3, 0, 1, 3, 0][si % 6]
                 cycles = 2 if si % 3 == 0 else 1
                 cases.append(("g%d.%d" % (gi, si), rng.below(1 << 31), strat, ex, cycles, graph, pres, inj, targets))
@@ -333,10 +381,71 @@ def main(argv):
     for c in cases:
         lines.append(case_line(*c))
         meta[c[0]] = c
-    chk.log("%d cases" % len(lines))
-    impl_out = chk.run_cases(impl, lines, timeout=900) if impl else {}
+    # unit cases: the real GraphVertex::activate against the real release() of its condition / target, 3 threads
+    ucfg = {"u11": ("1", "1", "-:1?0:2", "0=1", "1=7"), "u10": ("1", "0", "-:1!0:2", "0=1", "1=7"),
+            "u10e": ("1", "0", "-:1?0:2", "0=E", "1=7"), "u00": ("0", "0", "-:1:2", None, "1=7"),
+            "u11u": ("1", "1", "-:1!0:2", "0=0", "1=E")}
+    ulines = []
+    umeta = {}
+    if replay_unit:
+        ulines.append(replay_unit["line"])
+        umeta[replay_unit["line"].split()[0]] = tuple(replay_unit["cfg"])
+    if not chk.replay:
+        nu = 150 if not thorough else 1000
+        for name, (hc, ho, g, cinj, tinj) in sorted(ucfg.items()):
+            for k in range(nu):
+                d1, d2 = rng.below(12), rng.below(12)
+                inj = "|".join(x for x in [cinj and "%s@%d" % (cinj, d1), "%s@%d" % (tinj, d2)] if x)
+                cid = "%s.%d" % (name, k)
+                ulines.append("%s %d %d U 1 %s - %s 2" % (cid, rng.below(1 << 31), [0, 3, 1][k % 3], g, inj))
+                umeta[cid] = (name, hc, ho)
+    chk.log("%d graph cases, %d unit cases" % (len(lines), len(ulines)))
+    impl_out = chk.run_cases(impl, lines + ulines, timeout=900) if impl else {}
+    model_out = {}
+    dep_sets = {}
+    if model:
+        model_out = chk.run_cases(model, lines + ["D%s%s D %s %s" % (hc, ho, hc, ho) for hc, ho in (("1", "1"), ("1", "0"), ("0", "0"))],
+                                  timeout=900)
+        for k in ("D11", "D10", "D00"):
+            l = model_out.get(k, "")
+            if "outcomes=" not in l or "trunc=false" not in l or "stuck" in l:
+                chk.broke("correspondence", "dependency protocol exploration " + k, l)
+            else:
+                dep_sets[k] = set(l.split("outcomes=", 1)[1].split(";"))
+                chk.cov["states"] = chk.cov.get("states", 0) + int(l.split("states=")[1].split()[0])
+                chk.cov["transitions"] = chk.cov.get("transitions", 0) + int(l.split("trans=")[1].split()[0])
     distinct = set()
+    validated = 0
     for cid, l in impl_out.items():
+        if cid in umeta:
+            name, hc, ho = umeta[cid]
+            rep = {"unit": True, "cfg": [name, hc, ho], "line": [x for x in ulines if x.split()[0] == cid][0], "impl_line": l}
+            if l.startswith("DSCHED-STUCK") or l.startswith("CRASH"):
+                chk.violate("unit-" + ("stuck" if l.startswith("DSCHED") else "crash"),
+                            "GraphVertex::activate against concurrent release(): " + l[:300], rep)
+                continue
+            parts = l.split(" | ")
+            out = parts[1].strip().replace("unit=", "") if len(parts) == 3 else "?"
+            n = out.split("/")[0]
+            if n != "1":
+                chk.violate("unit-notified-%s" % ("twice" if n not in ("0", "?") else "never"),
+                            "one dependency, activator x condition releaser x target releaser: the vertex was invoked "
+                            "%s times (notified/_ready/_waiting_num = %s)" % (n, out), rep)
+            want_ready = "1" if name in ("u11", "u00", "u11u") else "0"
+            if out.split("/")[1:2] != [want_ready]:
+                chk.violate("unit-ready-flag", "dependency._ready = %s, expected %s (%s)" % (out.split("/")[1:2], want_ready, out), rep)
+            mon = dict(x.split("=") for x in parts[2].split()) if len(parts) == 3 else {}
+            for m in ("once", "deps", "flag", "input"):
+                if mon.get(m) != "1":
+                    chk.violate("mon-" + m, WHAT[m] + " (unit case): " + l, rep)
+            key = "D" + hc + ho
+            if key in dep_sets:
+                validated += 1
+                if out not in dep_sets[key]:
+                    chk.broke("correspondence", "AFModel DEP does not admit outcome %s of %s" % (out, name),
+                              "impl: %s\nmodel outcomes: %s" % (l, sorted(dep_sets[key])))
+            distinct.add((name, out))
+            continue
         _, seed, strat, ex, cycles, graph, presets, inj, targets = meta[cid]
         rep = {"seed": seed, "strategy": strat, "exec": ex, "cycles": cycles, "graph": graph, "presets": presets,
                "injects": inj, "targets": targets, "line": case_line(*meta[cid]), "impl_line": l}
@@ -360,6 +469,59 @@ def main(argv):
         for cyc, s in enumerate(parts[1].split("#")):
             keys.append(check_cycle(chk, rep, cyc, graph, presets, inj, targets, s))
         distinct.add((fmt_graph(graph), tuple(keys)))
-    chk.cov["evaluations"] = len(lines)
+        # correspondence with the extracted model (sequential evaluation + demand analysis of AFModel)
+        ml = model_out.get(cid)
+        if ml and " code=" in ml:
+            validated += 1
+            mf = dict(x.split("=", 1) for x in ml.split()[1:])
+            mran = dict((int(a.split(":")[0]), a.split(":")[1]) for a in mf.get("ran", "").split(";") if a)
+            mvals = mf["vals"].split(",")
+            macts = set(int(x) for x in mf.get("acts", "").split(",") if x)
+            for cyc, s in enumerate(parts[1].split("#")):
+                code, vals, ran, act, _ = parse_cycle(s)
+                diff = None
+                if (code == 0) != (mf["code"] == "0"):
+                    diff = "closure code %d, model expects %s" % (code, mf["code"])
+                elif code == 0 and any(t < len(vals) and vals[t] != mvals[t] for t in targets):
+                    diff = "target values %s, model %s" % ([vals[t] for t in targets], [mvals[t] for t in targets])
+                elif code == 0 and ran != mran:
+                    diff = "processors run with inputs %s, model %s" % (sorted(ran.items()), sorted(mran.items()))
+                elif any(v not in macts for v in list(ran) + list(act)):
+                    diff = "activated/ran %s, model activates only %s" % (sorted(set(ran) | act), sorted(macts))
+                elif any(v in mran and mran[v] != ran[v] for v in ran):
+                    diff = "inputs seen %s, model %s" % (sorted(ran.items()), sorted(mran.items()))
+                if diff:
+                    chk.broke("correspondence", "AFModel (sref/needed) vs implementation on %s" % case_line(*meta[cid]),
+                              "cycle %d: %s\nimpl:  %s\nmodel: %s" % (cyc, diff, s, ml))
+                    break
+        elif model:
+            chk.broke("correspondence", "model driver produced no line for " + cid, str(ml))
+    chk.cov["evaluations"] = len(lines) + len(ulines)
     chk.cov["distinct_nontrivial"] = len(distinct)
+    chk.cov["traces_validated_against_impl"] = validated
+    chk.cov["rule"] = ("graph case = (random DAG in topological order: 1-8 vertices, 0-3 dependencies each, plain / on / "
+                       "unless / essential, 1-2 emits, boolean and failing processors, trivial vertices; presets incl. empty "
+                       "and missing inputs; 1-3 requested targets; executor inplace or 1-3 workers picking queued run tasks in "
+                       "random order; optional injector threads; 1-2 run/reset cycles; schedule seed; strategy uniform / "
+                       "round-robin+pre-emption / PCT).  unit case = one vertex with one (conditional) dependency, "
+                       "GraphVertex::activate in one thread against release() of condition and target in two others.  "
+                       "distinct non-trivial = distinct (graph, observed outcome per cycle) resp. (unit config, outcome). "
+                       "Every graph case is also evaluated by the extracted model (sequential evaluation, demand set, "
+                       "expected error) and must agree; every unit outcome must be in the exhaustively explored outcome set "
+                       "of the extracted dependency machine")
+    ids = sorted(impl_out)
+    for cid in ids[:: max(1, len(ids) // 5)]:
+        chk.sample({"case": cid, "impl": impl_out[cid][:400], "model": model_out.get(cid, "")[:300]})
+    chk.cov["trusted_base"] = chk.cov.get("trusted_base", []) + [
+        "translator/gen.py", "ExtrOcamlBasic extraction + ocaml/explore.ml + ocaml/af_driver.ml",
+        "harness/shim (verif_atomic.h macro shim, dsched.cpp), harness GraphExecutor (task queue + worker threads)",
+        "refinement of the event-level engine model by the atomic-level dependency/vertex/closure machines: argued, "
+        "tied by outcome correspondence, not machine-checked",
+        "modelled not verified: babylon::Any, Promise/Future used by ClosureContext (C08), absl::InlinedVector"]
+    chk.assumptions = ["sequentially consistent interleavings at atomic-operation granularity (weak-memory effects are "
+                       "covered only by the memory-order obligations on the regenerated site table)",
+                       "graphs are acyclic, every data has at most one producer, no mutable dependencies / channels",
+                       "external emitters have returned from emit before run() starts (the closure accounting does not "
+                       "cover a release() in flight on another thread)",
+                       "fewer than 2^64 dependencies per vertex"]
     chk.finish("proof")
